@@ -497,7 +497,7 @@ type element struct {
 }
 
 // elements splits the body of an interpreted string or rune literal.
-func elements(body string, raw bool) []element {
+func elements(body string, raw, fine bool) []element {
 	var out []element
 	for len(body) > 0 {
 		if body[0] == '\\' && !raw {
@@ -516,6 +516,10 @@ func elements(body string, raw bool) []element {
 				kind = "esc-sq"
 			case '"':
 				kind = "esc-dq"
+			default:
+				if fine {
+					kind = "esc-" + body[:2] // one kind per simple escape, so a failure is attributed to the letter
+				}
 			}
 			out = append(out, element{body[:n], kind})
 			body = body[n:]
@@ -619,10 +623,10 @@ func features(c Case) (feat []string, atoms map[string]string) {
 	case "imag":
 		return []string{imagFeature(c.Lit)}, nil
 	case "rune":
-		els := elements(c.Lit[1:len(c.Lit)-1], false)
+		els := elements(c.Lit[1:len(c.Lit)-1], false, false)
 		return kindsOf(els), nil
 	case "string":
-		els := elements(c.Lit[1:len(c.Lit)-1], false)
+		els := elements(c.Lit[1:len(c.Lit)-1], false, true)
 		atoms = map[string]string{}
 		for _, e := range els {
 			if _, ok := atoms[e.kind]; !ok {
@@ -635,7 +639,7 @@ func features(c Case) (feat []string, atoms map[string]string) {
 		return kindsOf(els), atoms
 	case "raw":
 		body := c.Lit[1 : len(c.Lit)-1]
-		els := elements(body, true)
+		els := elements(body, true, false)
 		atoms = map[string]string{}
 		for _, e := range els {
 			if _, ok := atoms[e.kind]; !ok {
